@@ -86,6 +86,15 @@ func GetVarSize(value any) int {
 				valueSize = valueLength * 4
 			case uint64, int64:
 				valueSize = valueLength * 8
+			default:
+				// Values whose pointer type is the Serializable one (like WriteArray accepts).
+				if v.Index(0).CanAddr() {
+					if _, ok := v.Index(0).Addr().Interface().(Serializable); ok {
+						for i := range valueLength {
+							valueSize += GetVarSize(v.Index(i).Addr().Interface())
+						}
+					}
+				}
 			}
 		}
 
